@@ -263,9 +263,25 @@ pub fn check_hetero(c: &Hetero) -> Outcome {
         1 => ("xs.filter(x, true)", E::Macro(Mac::Filter, b(E::var("xs")), "x".into(), vec![E::Lit(V::Bool(true))])),
         2 => ("xs.map(x, true, [x])", E::Macro(Mac::Map, b(E::var("xs")), "x".into(), vec![E::Lit(V::Bool(true)), E::List(vec![x()])])),
         3 => ("xs.map(x, xs.map(x, x))", E::Macro(Mac::Map, b(E::var("xs")), "x".into(), vec![E::Macro(Mac::Map, b(E::var("xs")), "x".into(), vec![x()])])),
-        _ => ("[xs.map(x, x), xs.filter(x, x == x)]", E::List(vec![E::Macro(Mac::Map, b(E::var("xs")), "x".into(), vec![x()]), E::Macro(Mac::Filter, b(E::var("xs")), "x".into(), vec![E::bin(Op::Eq, x(), x())])])),
+        4 => ("[xs.map(x, x), xs.filter(x, x == x)]", E::List(vec![E::Macro(Mac::Map, b(E::var("xs")), "x".into(), vec![x()]), E::Macro(Mac::Filter, b(E::var("xs")), "x".into(), vec![E::bin(Op::Eq, x(), x())])])),
+        // forms 5-7: an inner macro over a *literal* range (here: the value of `outer`, written out) inside the body
+        k => {
+            let lit_range = E::Lit(c.outer.clone().unwrap_or(V::List(vec![])));
+            let inner = match k {
+                5 => E::Macro(Mac::Map, b(lit_range), "y".into(), vec![E::bin(Op::Add, x(), E::var("y"))]),
+                6 => E::Macro(Mac::Filter, b(lit_range), "y".into(), vec![E::bin(Op::Gt, E::var("y"), x())]),
+                _ => E::Macro(Mac::Exists, b(lit_range), "y".into(), vec![E::bin(Op::Eq, E::var("y"), x())]),
+            };
+            ("", E::Macro(Mac::Map, b(E::var("xs")), "x".into(), vec![inner]))
+        }
     };
-    debug_assert_eq!(e.render().replace(['(', ')'], ""), src.replace(['(', ')'], ""));
+    debug_assert!(src.is_empty() || e.render().replace(['(', ')'], "") == src.replace(['(', ')'], ""));
+    if c.form >= 5 {
+        // `outer` carries the literal range here, it is not a context variable
+        vars.truncate(1);
+    }
+    let src = if src.is_empty() { e.render() } else { src.to_string() };
+    let src = src.as_str();
     let variants = crate::props::c03::model_variants(&e, &vars, &vec![], false);
     let model = &variants[0].0;
     if let Err(Stop::Unsupported(w)) = model {
@@ -361,10 +377,20 @@ fn multiset_eq(a: &[V], b: &[V]) -> bool {
 
 pub fn check_map_unordered(c: &MapCase) -> Outcome {
     // total, pure bodies only (0..=4 of pred(), transformer 0/1 of xform())
+    // bodies 0-9: as before; 10-13: equality of the key with a literal of another numeric type (written either way round)
+    let pure = |k: u8| -> E {
+        match k {
+            10 => E::bin(Op::Eq, x(), E::Lit(V::f(2.0))),
+            11 => E::bin(Op::Eq, E::Lit(V::UInt(2)), x()),
+            12 => E::bin(Op::Eq, x(), E::Lit(V::f(1.0))),
+            13 => E::bin(Op::Eq, E::Lit(V::Int(3)), x()),
+            k => pred(k % 5),
+        }
+    };
     let body: Vec<E> = match (c.mac, c.arity) {
         (Mac::Map, 1) => vec![xform(c.body % 2)],
-        (Mac::Map, _) => vec![pred(c.body % 5), xform((c.body / 5) % 2)],
-        _ => vec![pred(c.body % 5)],
+        (Mac::Map, _) => vec![pure(c.body), xform((c.body / 5) % 2)],
+        _ => vec![pure(c.body)],
     };
     let (range_e, vars) = if c.literal_range { (E::Lit(c.range.clone()), vec![]) } else { (E::var("xs"), vec![("xs".to_string(), c.range.clone())]) };
     let e = E::Macro(c.mac, b(range_e), "x".into(), body);
@@ -527,6 +553,18 @@ pub fn run(r: &mut Runner) {
         r.sweep("two-stage-pipelines", cases, check_pipe);
     }
     r.random(
+        "nested-macros-over-literal-ranges",
+        12,
+        r.tier.n(6_000, 200_000),
+        |u: &mut Chooser| {
+            // `xs.map(x, [A, B].map(y, x + y))` and relatives: same shape from case to case, different literals
+            let inner = V::List((0..1 + u.below(3)).map(|_| V::Int(u.range(0, 40) as i64)).collect());
+            let outer = V::List((0..u.below(4)).map(|_| V::Int(u.range(0, 3) as i64)).collect());
+            Hetero { list: match (&outer, &inner) { (V::List(a), V::List(b)) => a.iter().chain(b.iter()).cloned().collect(), _ => vec![] }, outer: Some(inner), form: 5 + u.below(3) as u8 }
+        },
+        check_hetero,
+    );
+    r.random(
         "random-maps",
         80,
         n,
@@ -557,7 +595,7 @@ pub fn run(r: &mut Runner) {
         for mask in 0..16u32 {
             let es: Vec<(V, V)> = (0..4).filter(|k| mask & (1 << k) != 0).map(|k| (V::Int(k), V::Str(format!("v{k}")))).collect();
             for (mac, arity) in MACS {
-                for body in 0..10u8 {
+                for body in 0..14u8 {
                     for literal_range in [false, true] {
                         cases.push(MapCase { mac, arity, range: V::Map(es.clone()), body, literal_range });
                     }
@@ -567,7 +605,7 @@ pub fn run(r: &mut Runner) {
         // string and mixed keys
         for es in [vec![(V::s("a"), V::Int(1))], vec![(V::s("a"), V::Int(1)), (V::s("b"), V::Int(2))], vec![(V::Bool(true), V::Int(1)), (V::UInt(2), V::Int(2)), (V::Int(3), V::Int(3))]] {
             for (mac, arity) in MACS {
-                for body in [3u8, 4, 8, 9] {
+                for body in [3u8, 4, 8, 9, 10, 11, 12, 13] {
                     for literal_range in [false, true] {
                         cases.push(MapCase { mac, arity, range: V::Map(es.clone()), body, literal_range });
                     }
